@@ -261,10 +261,17 @@ def extra_checks(ctx, e, A, M):
                           observed=xr.tolist(), oracle="documented inverse")
     if cls in ("AngularSpectrumPropagator", "FresnelPropagator", "FraunhoferPropagator"):
         ref = optics_reference(e, A)
-        if ref is not None and not (np.abs(ref - M).max() <= rtol(A) * max(1.0, np.abs(ref).max())):
+        if ref is not None and ref.shape != M.shape:
+            ctx.violation(cls, "propagator output does not have the documented (cropped) size", {**key, "matrix_shape": list(M.shape)},
+                          expected=list(ref.shape), observed=list(M.shape), oracle="NumPy reference (documented formula)")
+        elif ref is not None and not (np.abs(ref - M).max() <= rtol(A) * max(1.0, np.abs(ref).max())):
             i, j = np.unravel_index(np.argmax(np.abs(ref - M)), M.shape)
+            alt = optics_reference(e, A, truncated_spectrum=True)
+            same_defect = bool(alt is not None and alt.shape == M.shape
+                               and np.abs(alt - M).max() <= rtol(A) * max(1.0, np.abs(alt).max()))
             ctx.violation(cls, "propagator is not F^-1 D F with the documented transfer function on the documented axes",
-                          {**key, "entry": [int(i), int(j)]}, expected=str(ref[i, j]), observed=str(M[i, j]),
+                          {**key, "entry": [int(i), int(j)], "matches_truncated_spectrum": same_defect},
+                          expected=str(ref[i, j]), observed=str(M[i, j]),
                           oracle="NumPy reference (documented formula)")
     if cls == "DFT":
         # "its inverse undoes it": whenever the transform does not crop the input
@@ -277,9 +284,16 @@ def extra_checks(ctx, e, A, M):
             import scico.numpy as snp
             x = L.rand_dyadic(ctx.rng, shp, np.complex64)
             xr = np.asarray(A.inv(A(x)))
-            if xr.shape != tuple(shp) or not (np.abs(xr - np.asarray(x)).max() <= 1e-4 * max(1.0, np.abs(np.asarray(x)).max())):
+            if xr.shape != tuple(shp):
+                ctx.violation("DFT.inv", "inv(F(x)) does not have the shape of x", {**key, "x": repr(L.flat(x).tolist())},
+                              expected=list(shp), observed=list(xr.shape), oracle="documented inverse")
+            elif not (np.abs(xr - np.asarray(x)).max() <= 1e-4 * max(1.0, np.abs(np.asarray(x)).max())):
+                # the recorded defect: ifftn(z, s=input lengths) truncates the padded spectrum
+                alt = np.fft.ifftn(np.asarray(A(x)), s=[shp[a] for a in axes], axes=list(axes),
+                                   norm=(c["norm"] or "backward"))
+                same_defect = bool(alt.shape == xr.shape and np.abs(alt - xr).max() <= 1e-4 * max(1.0, np.abs(alt).max()))
                 ctx.violation("DFT.inv", "inv(F(x)) differs from x although the transform does not crop its input",
-                              {**key, "x": repr(L.flat(x).tolist()),
+                              {**key, "x": repr(L.flat(x).tolist()), "matches_truncated_spectrum": same_defect,
                                "padded": bool(axshape is not None and any(m > shp[a] for a, m in zip(axes, axshape)))},
                               expected=repr(L.flat(x).tolist())[:300], observed=repr(xr.ravel().tolist())[:300],
                               oracle="documented inverse")
@@ -293,7 +307,10 @@ def extra_checks(ctx, e, A, M):
     return None
 
 
-def optics_reference(e, A):
+def optics_reference(e, A, truncated_spectrum=False):
+    """documented propagator crop(F^-1 D F pad(u)); with truncated_spectrum=True the map of the RECORDED defect
+    (the inverse transform is ifftn(., s=input lengths), which truncates the padded spectrum) -- used only to tell
+    that recorded finding apart from any other deviation"""
     c, cls = e.cfg, e.cls
     shp = c["shape"]
     dx = c["dx"]
@@ -316,7 +333,10 @@ def optics_reference(e, A):
             v[t] = 1
             x = np.zeros(pshape, dtype=np.complex128)
             x[tuple(slice(0, s) for s in shp)] = v.reshape(shp)
-            y = np.fft.ifftn(D * np.fft.fftn(x))
+            if truncated_spectrum:
+                y = np.fft.ifftn(D * np.fft.fftn(x), s=shp)
+            else:
+                y = np.fft.ifftn(D * np.fft.fftn(x))
             cols.append(y[tuple(slice(0, s) for s in shp)].ravel())
         return np.stack(cols, axis=1)
     return None
@@ -404,6 +424,10 @@ def run(ctx: Ctx):
         except Exception as ex:
             ctx.violation(e.cls, "constructing / evaluating the operator fails for a valid configuration", key,
                           observed=f"{type(ex).__name__}: {str(ex)[:200]}", oracle="evaluation")
+            continue
+        if M.shape != (L.size_of(A.output_shape), L.size_of(A.input_shape)):
+            ctx.violation(e.cls, "evaluation returns an array whose size differs from the declared output shape", key,
+                          expected=[L.size_of(A.output_shape), L.size_of(A.input_shape)], observed=list(M.shape), oracle="declared shapes")
             continue
         term = model_term(e, A)
         exact = e.kind == L.EXACT and L.is_double(A.input_dtype)
